@@ -579,3 +579,27 @@ func localFieldLoad(v ssa.Value) (*ssa.Alloc, int, bool) {
 	}
 	return al, fa.Field, true
 }
+
+// resolveLocalValue: a value read back from a single-assignment local variable, or from a field of
+// a struct held in a local variable with a single possible source, is that source.
+func resolveLocalValue(v ssa.Value) ssa.Value {
+	for i := 0; i < 6; i++ {
+		v = unwrap(v)
+		if al, idx, ok := localFieldLoad(v); ok {
+			if srcs := localStructFieldSources(al, idx, 0); len(srcs) == 1 {
+				v = srcs[0]
+				continue
+			}
+		}
+		if u, ok := v.(*ssa.UnOp); ok && u.Op == token.MUL {
+			if al, isAl := u.X.(*ssa.Alloc); isAl {
+				if st := capturedStores(al); len(st) == 1 {
+					v = st[0]
+					continue
+				}
+			}
+		}
+		break
+	}
+	return v
+}
